@@ -105,6 +105,7 @@ static bool eval(const std::string& fn, const std::string& tag, const std::vecto
       if(fn=="isnan"){ out_i(isnan(x)); return true; }
       if(fn=="ceil"){ out_i(ceil(x).v); return true; }
       if(fn=="floor"){ out_i(floor(x).v); return true; }
+      if(fn=="roundtrip_d"){ out_i(fixed_t{static_cast<double>(x)}.v); return true; }
       if(fn=="sin"){ out_i(sin(x).v); return true; }
       if(fn=="cos"){ out_i(cos(x).v); return true; }
       if(fn=="tan"){ out_i(tan(x).v); return true; }
